@@ -412,7 +412,7 @@ def check(prop, tier, seed, tlimit, jobs, keep=False):
         'build_s': round(build_s, 2), 'run_s': round(run_s, 2),
         'infrastructure_errors': infra,
     }
-    evdir = os.path.join(BUILD, 'evidence_fast') if FAST else os.path.join(ROOT, 'evidence')
+    evdir = os.environ.get('VERIF_EVIDENCE') or (os.path.join(BUILD, 'evidence_fast') if FAST else os.path.join(ROOT, 'evidence'))
     os.makedirs(evdir, exist_ok=True)
     with open(os.path.join(evdir, prop + '.json'), 'w') as f:
         json.dump(ev, f, indent=1)
